@@ -21,8 +21,33 @@ def swarm_config(r, bias=None):
         'xa': r.random() < 0.2,
         'always_consistent': r.random() < 0.25,
     }
+    # the volume descriptor fields new() takes; most runs leave them at their defaults
+    if r.random() < 0.3:
+        ss = r.choice((1, 2, 4, 255, 65535))
+        cfg['set_size'] = ss
+        cfg['seqnum'] = r.choice((1, ss, max(1, ss // 2), r.randint(1, ss)))
+    txt = lambda n: ''.join(r.choice('ABCDEFGHIJKLMNOPQRSTUVWXYZ0123456789_') for _ in range(n))     # noqa: E731
+    for key, limit in (('vol_ident', 32), ('sys_ident', 32), ('vol_set_ident', 128), ('pub_ident_str', 128), ('preparer_ident_str', 128),
+                       ('app_ident_str', 128), ('copyright_file', 37), ('abstract_file', 37), ('bibli_file', 37)):
+        if r.random() < 0.08:
+            cfg[key] = txt(r.choice((1, limit // 4, limit // 2, limit)))
+    if r.random() < 0.05:
+        cfg['app_use'] = txt(r.choice((1, 100, 140, 512)))
     if bias:
         cfg.update(bias)
+    return clamp_config(cfg)
+
+
+def clamp_config(cfg):
+    """Documented limits of new(): the Joliet descriptor holds the same strings in UCS-2 (half as many characters fit), and
+    an XA image keeps part of the application use area for itself.  Call again after changing 'joliet' or 'xa'."""
+    if cfg.get('joliet'):
+        for key, limit in (('vol_ident', 16), ('sys_ident', 16), ('vol_set_ident', 64), ('pub_ident_str', 64), ('preparer_ident_str', 64),
+                           ('app_ident_str', 64), ('copyright_file', 18), ('abstract_file', 18), ('bibli_file', 18)):
+            if cfg.get(key):
+                cfg[key] = cfg[key][:limit]
+    if cfg.get('xa') and cfg.get('app_use'):
+        cfg['app_use'] = cfg['app_use'][:140]
     return cfg
 
 
@@ -185,7 +210,7 @@ class NameGen:
 WEIGHTS = {
     'add_fp': 30, 'add_dir': 14, 'rm_file': 6, 'rm_dir': 4, 'add_link': 8, 'rm_link': 5,
     'add_symlink': 5, 'hide': 3, 'add_eltorito': 3, 'rm_eltorito': 1, 'add_isohybrid': 1,
-    'rm_isohybrid': 1, 'dup_pvd': 0.3, 'restart': 4, 'mass_dirs': 1, 'mass_files': 1, 'add_boot_file': 0, 're_add': 0, 'chain_dirs': 0.8,
+    'rm_isohybrid': 1, 'dup_pvd': 0.3, 'restart': 4, 'mass_dirs': 1, 'mass_files': 1, 'add_boot_file': 0, 're_add': 1.5, 'chain_dirs': 0.8, 'mass_eltorito': 0.05,
 }
 
 
@@ -243,6 +268,15 @@ class OpGen:
         return None
 
     def _new_rr_name(self, parent):
+        # after a directory with a long Rock Ridge name went away, names a byte or two around its length are what
+        # decides whether the freed continuation area is reused, split or overrun
+        freed = getattr(self, 'freed_rr_lens', None)
+        if freed and self.ra.random() < 0.4:
+            ln = max(1, self.ra.choice(freed) + self.ra.choice((-2, -1, 0, 1, 1, 2, 3)))
+            for _ in range(5):
+                nm = ''.join(self.ra.choice(RRCHARS.replace('.', '')) for _ in range(min(ln, 250)))
+                if nm not in ('.', '..') and self.m.rr_free(parent, nm):
+                    return nm
         for _ in range(20):
             nm = self.names.rr_name()
             if self.m.rr_free(parent, nm):
@@ -435,9 +469,19 @@ class OpGen:
         for ns in avail:
             cands = [p for p, n in m.iter_ns(ns) if n.kind == 'dir' and not n.children]
             if cands and (len(op) == 1 or self.ra.random() < 0.5):
+                if ns == 'iso' and m.rr and self.ra.random() < 0.6:
+                    # prefer the directory whose Rock Ridge name needed a continuation area
+                    longs = [p for p in cands if m.get('iso', p).rr and len(m.get('iso', p).rr) > 90]
+                    cands = longs or cands
                 op[ns] = self.ra.choice(cands)
         if len(op) == 1:
             return None
+        if op.get('iso') and m.rr:
+            rrn = m.get('iso', op['iso']).rr
+            if rrn and len(rrn.encode('utf-8')) > 60:
+                if not hasattr(self, 'freed_rr_lens'):
+                    self.freed_rr_lens = []
+                self.freed_rr_lens.append(len(rrn.encode('utf-8')))
         return op
 
     def g_add_link(self):
@@ -462,17 +506,30 @@ class OpGen:
             if parent is None:
                 return None
             nm = self._new_iso_name(parent, False)
+            if old_ns == 'iso' and r.random() < 0.35:
+                # the same identifier in another directory: two records that differ in nothing but their parent
+                same = M.split(old)[1]
+                if M._valid_new(m, 'iso', M.join(parent, same)):
+                    nm = same
             if nm is None:
                 return None
             op['new'] = M.join(parent, nm)
             if m.rr:
                 rn = self._new_rr_name(parent)
+                if old_ns == 'iso' and r.random() < 0.5:
+                    orr = m.get('iso', old).rr
+                    if orr and m.rr_free(parent, orr):
+                        rn = orr
                 if rn is None:
                     return None
                 op['rr'] = rn
         else:
             parent = self._pick_dir(new_ns)
             nm = self._new_uni_name(new_ns, parent, 64 if new_ns == 'joliet' else 120)
+            if old_ns == new_ns and r.random() < 0.35:
+                same = M.split(old)[1]
+                if M._valid_new(m, new_ns, M.join(parent, same)):
+                    nm = same
             if nm is None:
                 return None
             op['new'] = M.join(parent, nm)
@@ -580,12 +637,13 @@ class OpGen:
     def g_add_eltorito(self):
         m = self.m
         r = self.ra
-        if m.eltorito and len(m.eltorito['entries']) >= 31:
+        if m.eltorito and len(m.eltorito['entries']) >= 32:
             return None
         cands = self._boot_candidates()
         if m.eltorito:
             used = m.eltorito_blobs()
-            cands = [(p, n) for p, n in cands if n.blob not in used]
+            if r.random() < 0.8:          # otherwise: a further entry for an image that already has one (BIOS + EFI entry on one file)
+                cands = [(p, n) for p, n in cands if n.blob not in used]
         if not cands:
             return None
         p, n = r.choice(cands)
@@ -710,6 +768,13 @@ class OpGen:
                 return None
             if m.rr:
                 rn = self._new_rr_name(M.split(p)[0])
+                old_rr = getattr(m, 'removed_rr', {}).get(p)
+                if old_rr and r.random() < 0.75:
+                    # the same Rock Ridge path as before (whatever was remembered about it must be gone), or one that is a
+                    # byte longer or shorter (its continuation area is the freed one plus or minus one byte)
+                    cand = r.choice((old_rr, old_rr, old_rr, old_rr + 'x', old_rr + 'x', old_rr[:-1] or old_rr, old_rr + 'xy'))
+                    if len(cand.encode('utf-8')) <= 250 and m.rr_free(M.split(p)[0], cand):
+                        rn = cand
                 if rn is None:
                     return None
                 op['rr'] = rn
@@ -832,6 +897,40 @@ class OpGen:
                 if ns in op:
                     cur[ns] = op[ns]
         return out or None
+
+    def g_mass_eltorito(self):
+        """Macro-op: boot files and El Torito entries until the catalog is (nearly) full: an Initial Entry and 31 sections
+        fill its block to the last byte."""
+        m = self.m
+        r = self.ra
+        have = len(m.eltorito['entries']) if m.eltorito else 0
+        target = r.choice((30, 31, 32, 32))
+        if have >= target:
+            return None
+        parent = self._pick_dir('iso', 7 if not (m.rr or m.cfg['level'] == 4) else None)
+        if parent is None:
+            return None
+        out = []
+        taken = set(m.get('iso', parent).children)
+        used_rr = {ch.rr for ch in m.get('iso', parent).children.values()}
+        for i in range(target - have):
+            nm = 'BT%02d.;1' % i
+            if nm in taken or any(k.split(';')[0] == nm.split(';')[0] for k in taken):
+                return None
+            op = {'op': 'add_fp', 'blob': self.next_blob, 'len': r.choice((1, 512, 2048, 2049)), 'route': 'fp', 'iso': M.join(parent, nm)}
+            if m.rr:
+                rn = 'bt%02d' % i
+                if rn in used_rr:
+                    return None
+                op['rr'] = rn
+            self.next_blob += 1
+            out.append(op)
+            eo = {'op': 'add_eltorito', 'boot': op['iso'], 'media': 'noemul', 'platform': r.choice((0, 0, 0xef)), 'bootable': r.random() < 0.8,
+                  'load_seg': 0, 'efi': r.random() < 0.3, 'bit': False}
+            if not m.eltorito and i == 0:
+                eo['efi'] = False
+            out.append(eo)
+        return out
 
     def g_mass_dirs(self):
         return self._mass(True)
